@@ -121,6 +121,7 @@ HooksDie(c, h) == \E i \in 1..NMw(c) : HookMode(c, i, h) = "raise"
 
 AckInstrs(c, m) ==
   IF ~c.ackable THEN <<>>
+  ELSE IF MsgC(c, m).ackfail THEN <<I("ack", m, 0, "", "die", NoG, "")>>
   ELSE IF c.ackasync THEN <<I("ack", m, 0, "", "yield", NoG, ""), I("ack_e", m, 0, "", "go", NoG, "")>>
   ELSE <<I("ack", m, 0, "", "go", NoG, "")>>
 
@@ -156,8 +157,9 @@ DepCloseInstrs(c, m, oc) ==
   IN [j \in 1..Len(order) |-> I("dep_close", order[j].id, 0, saw, "go", NoG, "")]
 
 SaveFlags(oc) == IF oc = "ret" THEN 6 ELSE 29
-SaveCls(oc) == CASE oc = "ret" -> "none" [] oc = "cancel" -> "timeout" [] OTHER -> oc
+SaveCls(oc) == CASE oc = "ret" -> "none" [] oc = "cancel" -> "timeout" [] oc = "cerr" -> "cancel" [] OTHER -> oc
 
+AckDies(c, m, at) == c.ackable /\ MsgC(c, m).ackfail /\ AckT(c) = at
 Pre(c, m) ==
   LET mc == MsgC(c, m) IN
   IF mc.kind # "valid" THEN <<I("cb_b", 0, 0, "", "go", NoG, "")>>
@@ -165,6 +167,7 @@ Pre(c, m) ==
      <<I("cb_b", 0, 0, "", "go", NoG, "")>>
   \o Hooks(c, m, "pre")
   \o (IF HooksDie(c, "pre") THEN <<>>
+      ELSE IF AckDies(c, m, "when_received") THEN AckInstrs(c, m)
       ELSE (IF AckT(c) = "when_received" THEN AckInstrs(c, m) ELSE <<>>)
         \o <<I("", 0, 0, "", "go", NoG, "ctx")>>
         \o DepOpenFrom(c, m, DepsOf(c, m))
@@ -184,15 +187,15 @@ StaticOutcome(c, m) ==
 Post(c, m, oc) ==
   LET mc == MsgC(c, m)
       dyn == StaticOutcome(c, m) = "none"
-      stop1 == oc \in ErrOutcomes /\ HooksDie(c, "onerr")
-      stop2 == stop1 \/ HooksDie(c, "post")
+      stop1 == (oc \in ErrOutcomes /\ HooksDie(c, "onerr")) \/ AckDies(c, m, "when_received")
+      stop2 == stop1 \/ HooksDie(c, "post") \/ AckDies(c, m, "when_executed")
       saved == oc # "nores"
   IN (IF dyn THEN <<I("end", m, 0, oc, "go", NoG, "")>> ELSE <<>>)
   \o DepCloseInstrs(c, m, oc)
   \o (IF oc \in ErrOutcomes THEN Hooks(c, m, "onerr") ELSE <<>>)
   \o (IF stop1 THEN <<>>
       ELSE (IF AckT(c) = "when_executed" THEN AckInstrs(c, m) ELSE <<>>)
-        \o Hooks(c, m, "post")
+        \o (IF AckDies(c, m, "when_executed") THEN <<>> ELSE Hooks(c, m, "post"))
         \o (IF stop2 THEN <<>>
             ELSE (IF saved
                   THEN <<I("save_b", m, SaveFlags(oc), SaveCls(oc),
@@ -201,14 +204,14 @@ Post(c, m, oc) ==
                        \o (IF mc.savefail THEN <<>> ELSE Hooks(c, m, "postsave"))
                   ELSE <<>>)
               \o (IF AckT(c) = "when_saved" THEN AckInstrs(c, m) ELSE <<>>)
-              \o <<I("cb_e", 0, 0, "ok", "go", NoG, "")>>))
+              \o (IF AckDies(c, m, "when_saved") THEN <<>> ELSE <<I("cb_e", 0, 0, "ok", "go", NoG, "")>>)))
 
 Dies(c, m, oc) == MsgC(c, m).kind = "valid" /\
                   (HooksDie(c, "pre") \/ (oc \in ErrOutcomes /\ HooksDie(c, "onerr")) \/ HooksDie(c, "post"))
 
 Prog(c, m, oc) ==
   IF MsgC(c, m).kind # "valid" THEN Pre(c, m) \o <<I("cb_e", 0, 0, "ok", "go", NoG, "")>>
-  ELSE IF HooksDie(c, "pre") THEN Pre(c, m)
+  ELSE IF HooksDie(c, "pre") \/ AckDies(c, m, "when_received") THEN Pre(c, m)
   ELSE IF oc = "none" THEN Pre(c, m) ELSE Pre(c, m) \o Post(c, m, oc)
 
 (* a sub-context copies the dependency-context dict when it is created, i.e. *)
@@ -241,7 +244,7 @@ Run(c, m, P, r, gates, t) ==
          [] i.k = "yield" -> [nxt EXCEPT !.w = "ready"]
          [] i.k = "gate" -> IF i.g \in gates THEN Run(c, m, P, nxt, gates, t) ELSE [nxt EXCEPT !.w = "gate", !.g = i.g]
          [] i.k = "body" -> [nxt EXCEPT !.w = "body"]
-         [] OTHER -> [nxt EXCEPT !.evs = Append(@, EvT("cb_e", m, 0, 0, "raised:HookError", t)), !.w = "fin",
+         [] OTHER -> [nxt EXCEPT !.evs = Append(@, EvT("cb_e", m, 0, 0, "raised", t)), !.w = "fin",
                                  !.pc = Len(P) + 1]
 
 --------------------------------------------------------------------------
@@ -449,6 +452,16 @@ SlotConservation ==
     k.slots + Cardinality(k.live) + (IF k.rn \in {"rget", "rgranted", "drain", "exited"} THEN 1 ELSE 0) = cfg.A
 (* C04 decomposition: hand-over queue is bounded by P + 1 *)
 QueueBound == Len(SelectSeq(k.queue, LAMBDA x : x # 0)) <= cfg.P + 1
+(* soundness of the end-of-trace clauses C01_Stuck / C03_Progress: in a    *)
+(* quiescent state of the design no taken message waits while a slot is   *)
+(* free, and an idle, not-stopping worker has taken everything available  *)
+NoStuckMessage ==
+  (Quiescent /\ ~returned) =>
+     /\ (\A m \in 1..k.ntaken : (cbw[m] = "none" /\ IsValid(cfg, m)) =>
+            (cfg.A > 0 /\ Cardinality({x \in Msgs : cbw[x] \in {"ready", "gate", "body"}}) >= cfg.A)
+            \/ k.pf = "exited")
+     /\ ((~k.stop /\ (cfg.N = 0 \/ k.ntaken < cfg.N) /\ (\A x \in Msgs : cbw[x] \in {"none", "rel"}))
+            => k.ntaken = k.arrived)
 TypeOK == /\ k.permits >= 0 /\ k.slots >= 0
           /\ k.ntaken <= k.arrived
 View == kvars
